@@ -232,48 +232,91 @@ func runC17(c *Ctx, idx int, o *Obs) {
 
 	// the command reads a Newick stream: one tree per ';'-terminated line, so keep texts without ';' or line ends inside labels/comments
 	if idx%6 == 5 && strings.Count(text, ";") == 1 && !strings.ContainsAny(text, "\n\r") {
-		f := tmpFile(c, "nni.nw", text+"\n")
+		// a file of two or three trees (different sizes): the output must be, tree after tree, the neighbours of THAT tree
+		type one struct {
+			m     *ref.Tree
+			tx    *ref.Taxa
+			inner int
+			both  bool
+		}
+		mkOne := func(m *ref.Tree) one {
+			x := ref.NewTaxa(m.Tips())
+			k := 0
+			for _, sp := range m.Splits(x) {
+				if !sp.Trivial {
+					k++
+				}
+			}
+			b := len(m.Root.Children) == 2 && !m.Root.Children[0].IsTip() && !m.Root.Children[1].IsTip()
+			return one{m, x, k, b}
+		}
+		items := []one{mkOne(R)}
+		lines := []string{text}
+		for j := 0; j < 1+r.Intn(2); j++ {
+			m := gen.Tree(r, gen.Opts{N: 4 + r.Intn(9), Shape: "random", RootDeg: 3, MultiP: 0, Lens: "all", LenCls: "dec", Names: "simple"})
+			items = append(items, mkOne(m))
+			lines = append(lines, m.Newick())
+		}
+		f := tmpFile(c, "nni.nw", strings.Join(lines, "\n")+"\n")
 		res := runCLI(c, "", "nni", "-i", f)
 		o.Ev("cli", 1)
-		if !o.Check(res.Exit == 0 && !res.Panic, "cli_nni_failed", res.brief(), text, tag...) {
+		inp := strings.Join(lines, "\n")
+		if !o.Check(res.Exit == 0 && !res.Panic, "cli_nni_failed", res.brief(), inp, tag...) {
 			return
 		}
-		lines := strings.Split(strings.TrimSpace(res.Stdout), "\n")
-		want := 2 * innerSplits
-		m0 := R
-		bothInner := rooted && !m0.Root.Children[0].IsTip() && !m0.Root.Children[1].IsTip()
-		if bothInner && len(lines) == want-2 {
-			o.Fail("nni_proposal_count", fmt.Sprintf("gotree nni: %d neighbours for %d inner splits: the split carried by the two root branches gets none", len(lines), innerSplits), text,
-				"rooted", "true", "both_root_children_inner", "true", "missing", "2")
-		} else {
-			o.Check(len(lines) == want, "nni_proposal_count", fmt.Sprintf("gotree nni: %d neighbours for %d inner splits", len(lines), innerSplits), text, "rooted", fmt.Sprint(rooted), "missing", fmt.Sprint(want-len(lines)), "via", "cli")
-		}
-		orig := R.Splits(tx)
-		seen := map[string]bool{}
-		for i, ln := range lines {
-			m, err := ref.ParseNewick(ln)
-			if !o.Check(err == nil, "cli_nni_unreadable", fmt.Sprintf("line %d: %v", i, err), text) {
-				break
-			}
-			if !o.Check(sameStrings(m.SortedTips(), tx.Names), "nni_tipset", fmt.Sprintf("gotree nni line %d: tip set changed", i), text) {
-				break
-			}
-			sp := m.Splits(tx)
-			diff := 0
-			for k := range orig {
-				if _, ok := sp[k]; !ok {
-					diff++
+		out := strings.Split(strings.TrimSpace(res.Stdout), "\n")
+		pos := 0
+		for ti, it := range items {
+			want := 2 * it.inner
+			if it.both {
+				// listed known finding: the root split of such a rooted tree gets no proposal
+				if pos+want-2 <= len(out) {
+					ok := true
+					if pos+want-1 < len(out) {
+						// decide between want and want-2 by looking at the tip set of the line that would follow
+						m, err := ref.ParseNewick(out[pos+want-2])
+						ok = err != nil || !sameStrings(m.SortedTips(), it.tx.Names)
+					}
+					if ok {
+						o.Fail("nni_proposal_count", fmt.Sprintf("gotree nni, tree %d: %d neighbours for %d inner splits: the split carried by the two root branches gets none", ti, want-2, it.inner), inp,
+							"rooted", "true", "both_root_children_inner", "true", "missing", "2")
+						want -= 2
+					}
 				}
 			}
-			for k := range sp {
-				if _, ok := orig[k]; !ok {
-					diff++
-				}
+			if !o.Check(pos+want <= len(out), "nni_proposal_count", fmt.Sprintf("gotree nni, tree %d of %d: output ends after %d lines, %d neighbours expected for this tree", ti, len(items), len(out)-pos, want), inp, "via", "cli", "missing", "?") {
+				return
 			}
-			o.Check(diff == 2, "nni_not_one_split", fmt.Sprintf("gotree nni line %d differs from the input by %d splits", i, diff), text, "via", "cli")
-			cn := m.CanonicalSplits(tx)
-			o.Check(!seen[cn], "nni_duplicate_neighbour", fmt.Sprintf("gotree nni line %d repeats an earlier neighbour", i), text, "via", "cli")
-			seen[cn] = true
+			orig := it.m.Splits(it.tx)
+			seen := map[string]bool{}
+			for i := 0; i < want; i++ {
+				ln := out[pos+i]
+				m, err := ref.ParseNewick(ln)
+				if !o.Check(err == nil, "cli_nni_unreadable", fmt.Sprintf("line %d: %v", pos+i, err), inp) {
+					return
+				}
+				if !o.Check(sameStrings(m.SortedTips(), it.tx.Names), "nni_tipset", fmt.Sprintf("gotree nni line %d: not a tree on the tips of input tree %d", pos+i, ti), inp, "via", "cli") {
+					return
+				}
+				sp := m.Splits(it.tx)
+				diff := 0
+				for k := range orig {
+					if _, ok := sp[k]; !ok {
+						diff++
+					}
+				}
+				for k := range sp {
+					if _, ok := orig[k]; !ok {
+						diff++
+					}
+				}
+				o.Check(diff == 2, "nni_not_one_split", fmt.Sprintf("gotree nni line %d differs from input tree %d by %d splits", pos+i, ti, diff), inp, "via", "cli")
+				cn := m.CanonicalSplits(it.tx)
+				o.Check(!seen[cn], "nni_duplicate_neighbour", fmt.Sprintf("gotree nni line %d repeats an earlier neighbour of tree %d", pos+i, ti), inp, "via", "cli")
+				seen[cn] = true
+			}
+			pos += want
 		}
+		o.Check(pos == len(out), "nni_proposal_count", fmt.Sprintf("gotree nni: %d lines written, %d neighbours expected over %d trees", len(out), pos, len(items)), inp, "via", "cli", "missing", fmt.Sprint(pos-len(out)))
 	}
 }
